@@ -12,7 +12,9 @@
 (*       numberOfHMetrics share the last advance and take their left side  *)
 (*       bearing from the trailing array  (HmtxStep);                      *)
 (*   CFF::subset / CFF2::subset_to_cff                - no closure: the    *)
-(*       new glyphs are exactly the requested ones, in order  (CffOrder).  *)
+(*       new glyphs are exactly the requested ones, in order  (CffOrder);  *)
+(*       names kept, accented glyphs (seac) resolved through them          *)
+(*       (CffSubsetFont, CffSubsetRelation, Dev_SeacComponentsNotPulledIn).*)
 (* The machine is written as pure step operators on a small state record   *)
 (* so that MC_Subset can run it one loop step per action and Trace_Subset  *)
 (* can run it to completion on facts recorded from real fonts.             *)
@@ -272,6 +274,150 @@ RecHasBytes(f, g, rep) ==
 RepIndependent(f, rep) ==
   \A g \in 0 .. f.n - 1 :
     KindOfRecord(IF RecHasBytes(f, g, rep) THEN 12 ELSE 0, RecNC(f, g, rep)) = f.kind[g + 1]
+
+\* ---- name-keyed CFF: glyph names, accented glyphs (seac), representation choices ------------
+(***************************************************************************)
+(* CFF::subset (src/cff/subset.rs) copies the charstrings of the requested *)
+(* glyphs and keeps their names; nothing is pulled in (CffOrder).  What a  *)
+(* charstring draws can nevertheless depend on OTHER glyphs: the seac form *)
+(* of endchar, `adx ady bchar achar endchar`, draws the glyph NAMED by the  *)
+(* StandardEncoding code bchar and, displaced by (adx, ady), the glyph     *)
+(* named by achar: code -> StandardEncoding SID -> the glyph whose name in *)
+(* the font's charset is that SID (Font::seac_code_to_glyph_id).           *)
+(* Abstract name-keyed font  [n, name, glyph]  (glyph g at index g + 1):   *)
+(*   name[g+1]   string id of the glyph's name, 0 for .notdef               *)
+(*   glyph[g+1]  [acc |-> FALSE, shape |-> token]   or                      *)
+(*               [acc |-> TRUE, b |-> code, a |-> code, dx |-> , dy |-> ]   *)
+(* An outline is a sequence of <<shape token, dx, dy>> in drawing order.   *)
+(***************************************************************************)
+\* TN5176 appendix B (StandardEncoding), code -> SID; 0 = not encoded
+StdEncSID(c) ==
+  IF c \in 32 .. 126 THEN c - 31
+  ELSE IF c \in 161 .. 175 THEN c - 161 + 96
+  ELSE IF c \in 177 .. 180 THEN c - 177 + 111
+  ELSE IF c \in 182 .. 189 THEN c - 182 + 115
+  ELSE IF c = 191 THEN 123
+  ELSE IF c \in 193 .. 200 THEN c - 193 + 124
+  ELSE IF c \in 202 .. 203 THEN c - 202 + 132
+  ELSE IF c \in 205 .. 208 THEN c - 205 + 134
+  ELSE IF c = 225 THEN 138
+  ELSE IF c = 227 THEN 139
+  ELSE IF c \in 232 .. 235 THEN c - 232 + 140
+  ELSE IF c = 241 THEN 144
+  ELSE IF c = 245 THEN 145
+  ELSE IF c \in 248 .. 251 THEN c - 248 + 146
+  ELSE 0
+
+\* the glyph that bears a name, -1 when the font has none (sid 0 is .notdef = glyph 0)
+GlyphOfName(f, sid) ==
+  IF sid = 0 THEN 0
+  ELSE LET P == {g \in 1 .. f.n - 1 : f.name[g + 1] = sid} IN IF P = {} THEN -1 ELSE MinOf(P)
+SeacBase(f, g) == GlyphOfName(f, StdEncSID(f.glyph[g + 1].b))
+SeacAccent(f, g) == GlyphOfName(f, StdEncSID(f.glyph[g + 1].a))
+
+ShiftBy(ls, dx, dy) == [i \in 1 .. Len(ls) |-> <<ls[i][1], ls[i][2] + dx, ls[i][3] + dy>>]
+\* base at the origin, accent displaced; a component that is itself accented is resolved the same way (allsorts
+\* recurses); a name the font does not have, or a chain longer than the fuel (a cycle), has no outline
+RECURSIVE CffFlat(_, _, _)
+CffFlat(f, g, fuel) ==
+  IF g < 0 \/ g >= f.n THEN NoOutline
+  ELSE LET c == f.glyph[g + 1] IN
+       IF ~c.acc THEN [ok |-> TRUE, ls |-> << <<c.shape, 0, 0>> >>]
+       ELSE IF fuel = 0 THEN NoOutline
+       ELSE LET rb == CffFlat(f, SeacBase(f, g), fuel - 1)
+                ra == CffFlat(f, SeacAccent(f, g), fuel - 1)
+            IN IF rb.ok /\ ra.ok THEN [ok |-> TRUE, ls |-> rb.ls \o ShiftBy(ra.ls, c.dx, c.dy)] ELSE NoOutline
+CffOutline(f, g) == CffFlat(f, g, f.n)
+
+\* the glyphs an accented glyph draws through (itself included)
+RECURSIVE SeacReach(_, _)
+SeacReach(f, S) ==
+  LET T == S \cup UNION {IF f.glyph[g + 1].acc THEN {SeacBase(f, g), SeacAccent(f, g)} \ {-1} ELSE {} : g \in S}
+  IN IF T = S THEN S ELSE SeacReach(f, T)
+SeacClosedIn(f, req, g) == SeacReach(f, {g}) \subseteq Range(req)
+
+\* the machine: charstrings copied, names kept (the new font holds exactly the requested glyphs, in order)
+CffSubsetFont(src, req) ==
+  [n     |-> Len(req),
+   name  |-> [i \in 1 .. Len(req) |-> src.name[req[i] + 1]],
+   glyph |-> [i \in 1 .. Len(req) |-> src.glyph[req[i] + 1]]]
+
+(***************************************************************************)
+(* How the charset of the written font is STORED is the implementation's   *)
+(* choice: allsorts writes the predefined ISOAdobe charset (no table, the   *)
+(* Top DICT says `0 charset`) when the kept names are 1, 2, 3 .. in glyph  *)
+(* order and there are at most 228 of them, a format 0 table otherwise.    *)
+(* Whatever is chosen must decode to the names kept (CharsetFaithful): an  *)
+(* implementation that chooses ISOAdobe by looking at the glyph IDS of a    *)
+(* prefix request (seeded change C07-r3m2) writes other names for the same *)
+(* glyphs, and an accented glyph is then built from the wrong components.  *)
+(***************************************************************************)
+IsoAdobeLast == 228
+NamesAreIsoAdobe(names) == Len(names) - 1 <= IsoAdobeLast /\ \A i \in 1 .. Len(names) : names[i] = i - 1
+CharsetChoice(names) == IF NamesAreIsoAdobe(names) THEN "isoadobe" ELSE "format0"
+NamesDecoded(choice, names) == IF choice = "isoadobe" THEN [i \in 1 .. Len(names) |-> i - 1] ELSE names
+CharsetFaithful(names) == NamesDecoded(CharsetChoice(names), names) = names
+
+(***************************************************************************)
+(* Dev_SeacComponentsNotPulledIn.  The property lets "composite components *)
+(* pulled in" follow the requested glyphs; allsorts pulls nothing in for a  *)
+(* CFF font, so an accented glyph whose base or accent is not requested     *)
+(* cannot be drawn from the subset (the name is gone: InvalidSeacCode).     *)
+(* Read strictly that is a lost outline; the reading adopted here is that   *)
+(* the caller chooses the closure of a CFF request: the outline of an       *)
+(* accented glyph is demanded when its components are among the requested   *)
+(* glyphs, otherwise it may be missing - but if the glyph draws, it draws   *)
+(* what it drew in the source.                                              *)
+(***************************************************************************)
+Dev_SeacComponentsNotPulledIn == "outline-demanded-only-when-the-components-are-requested"
+CffGlyphPreserved(src, req, out, n) ==
+  LET o == req[n + 1]
+      want == CffOutline(src, o)
+      got == CffOutline(out, n)
+  IN IF SeacClosedIn(src, req, o) THEN got = want ELSE got \in {want, NoOutline}
+
+CffSubsetRelation(src, req, out) ==
+  /\ out.n = Len(req)
+  /\ \A n \in 0 .. out.n - 1 : CffGlyphPreserved(src, req, out, n)
+
+(***************************************************************************)
+(* Representation choices of a CFF SOURCE (TN5176; cffrep.rs writes them): *)
+(*   hdr      hdrSize: 4, or more - the bytes in between are skipped        *)
+(*   hoff     the header's offSize byte, 1 .. 4                             *)
+(*   ioff     offSize of the INDEXes: 0 = as small as possible, or 2, 3, 4  *)
+(*   top      order of the Top DICT operators (one of four)                 *)
+(*   short    offsets as shortest operands or in the five byte form         *)
+(*   charset  "f0" | "f1" | "f2" tables, or predefined: "iso-omitted" (no   *)
+(*            charset operator: ISOAdobe is the default), "iso-0" (`0       *)
+(*            charset`) - legal only if the names ARE ISOAdobe's            *)
+(*   enc      Encoding absent | "standard" | "expert" | "custom0" |         *)
+(*            "custom1"                                                     *)
+(*   blocks   order of CharStrings / charset / Encoding / Private in the    *)
+(*            table; gap: bytes between a Private DICT and its Subrs INDEX  *)
+(*   priv     order of the Private DICT entries; subrs: local and global    *)
+(*            subroutines present (and called) or not; widths: which of     *)
+(*            defaultWidthX / nominalWidthX the Private DICT has (the       *)
+(*            charstrings carry their width operand accordingly)            *)
+(* No operator of the property (CffOutline, CffGlyphPreserved,              *)
+(* CffSubsetRelation) takes a representation: two sources that decode to    *)
+(* the same abstract font have the same conforming subsets.                 *)
+(* CffRepIndependent is the lemma that a representation decodes to the font *)
+(* it encodes as far as names go (the part a predefined charset can get     *)
+(* wrong); MC_SubsetCff checks it on the representation of every case.  An  *)
+(* implementation that writes the source's hdrSize back over a four byte    *)
+(* header (seeded change C07-r3m3) makes the result depend on `hdr`.        *)
+(***************************************************************************)
+CffRepHdr == {4, 5, 8}
+CffRepCharset == {"f0", "f1", "f2", "iso-omitted", "iso-0"}
+CffRepEnc == {"absent", "standard", "expert", "custom0", "custom1"}
+WellFormedCffRep(f, rep) ==
+  /\ rep.hdr \in CffRepHdr /\ rep.hoff \in 1 .. 4 /\ rep.ioff \in {0, 2, 3, 4} /\ rep.top \in 0 .. 3
+  /\ rep.short \in BOOLEAN /\ rep.charset \in CffRepCharset /\ rep.enc \in CffRepEnc
+  /\ rep.blocks \in 0 .. 2 /\ rep.gap \in 0 .. 7 /\ rep.priv \in 0 .. 1 /\ rep.subrs \in BOOLEAN /\ rep.widths \in 0 .. 3
+  /\ (rep.charset \in {"iso-omitted", "iso-0"} => NamesAreIsoAdobe(f.name))
+\* the names a reader finds under a charset representation
+NamesUnderRep(f, rep) == IF rep.charset \in {"iso-omitted", "iso-0"} THEN [i \in 1 .. f.n |-> i - 1] ELSE f.name
+CffRepIndependent(f, rep) == NamesUnderRep(f, rep) = f.name
 
 \* ---- the property -----------------------------------------------------------------
 \* a retained glyph keeps its kind and its instructions, a retained composite every field of every
